@@ -253,9 +253,19 @@ func (e *LogEnv) Load(name string, plan func(*Call) Decision) (*LogInst, error) 
 	return e.loadInst(in, plan, nil)
 }
 
+// LoadCache is Load with a private deduplication cache file (a second machine).
+func (e *LogEnv) LoadCache(name string, plan func(*Call) Decision, cache string) (*LogInst, error) {
+	in := NewInst(e.W, name)
+	in.cache = cache
+	return e.loadInst(in, plan, nil)
+}
+
 func (e *LogEnv) loadInst(in *Inst, plan func(*Call) Decision, want func() int) (*LogInst, error) {
 	in.Plan = plan
 	li := &LogInst{Env: e, In: in, Cfg: e.config(in)}
+	if in.cache != "" {
+		li.Cfg.Cache = in.cache
+	}
 	e.mu.Lock()
 	e.byInst[in] = li
 	e.insts = append(e.insts, li)
@@ -324,6 +334,27 @@ func (li *LogInst) Submit(pe *ctlog.PendingLogEntry, low bool) *Sub {
 	return s
 }
 
+// SubmitConcurrent is Submit for workloads with racing submitters: the pool
+// order is not tracked (the environment must be in NoTruth mode).
+func (li *LogInst) SubmitConcurrent(pe *ctlog.PendingLogEntry, low bool) *Sub {
+	e := li.Env
+	e.mu.Lock()
+	e.nextSub++
+	s := &Sub{ID: e.nextSub, E: pe, Low: low, Inst: li, Round: li.Round}
+	e.mu.Unlock()
+	s.Wait, s.Source = li.Log.VerifAddLeafToPool(context.Background(), pe, low)
+	return s
+}
+
+// AuditStored audits the store at the given tree head against its own leaves.
+func (e *LogEnv) AuditStored(sth *RefSTH) []AuditProblem {
+	e.W.mu.Lock()
+	defer e.W.mu.Unlock()
+	e.mu.Lock()
+	defer e.mu.Unlock()
+	return e.auditStoredLocked(e.W, sth.Size, sth.Timestamp, 0, sth.Root)
+}
+
 // WaitAck calls the submission's wait function and records the outcome.
 func (li *LogInst) WaitAck(ctx context.Context, s *Sub) *Ack {
 	le, err := s.Wait(ctx)
@@ -348,12 +379,7 @@ func (li *LogInst) WaitAck(ctx context.Context, s *Sub) *Ack {
 // parallel tile batch).
 func (li *LogInst) Sequence(wantParkedF func() int) (error, bool) {
 	wantParked := 1
-	li.mu.Lock()
-	li.roundPool = li.pool
-	li.pool = nil
-	li.Round++
-	li.roundTime = simNow.Load()
-	li.mu.Unlock()
+	li.BeginRound()
 	ch := make(chan error, 1)
 	done := make(chan struct{})
 	li.running.Add(1)
@@ -387,6 +413,17 @@ func (li *LogInst) Sequence(wantParkedF func() int) (error, bool) {
 			return errCrashed, true
 		}
 	}
+}
+
+// BeginRound does the harness-side bookkeeping of a round about to start: the
+// pool admitted so far is the round's pool.
+func (li *LogInst) BeginRound() {
+	li.mu.Lock()
+	li.roundPool = li.pool
+	li.pool = nil
+	li.Round++
+	li.roundTime = simNow.Load()
+	li.mu.Unlock()
 }
 
 // Abandon kills the instance (if still alive), unwinds its goroutines and
@@ -549,6 +586,12 @@ func (e *LogEnv) onUpload(w *World, c *Call) {
 		}
 	}
 	e.PubObs = append(e.PubObs, CpObs{STH: sth, Raw: c.Data, Seq: c.Seq, By: c.Inst.Name})
+	if e.AuditPub && e.NoTruth {
+		e.R.Count("publication_audits_stored", 1)
+		for _, p := range e.auditStoredLocked(w, sth.Size, sth.Timestamp, c.IssueSeq, sth.Root) {
+			e.violate("publish-audit:"+p.Class, "at publication of checkpoint size %d (audit against the stored leaves): %s", sth.Size, p.Msg)
+		}
+	}
 	if e.AuditPub && !e.NoTruth && !e.broken {
 		e.pubAudits++
 		e.R.Count("publication_audits", 1)
@@ -616,14 +659,51 @@ func (e *LogEnv) Audit(size, maxTimestamp, beforeSeq int64) []AuditProblem {
 }
 
 func (e *LogEnv) auditLocked(w *World, size, maxTimestamp, beforeSeq int64) []AuditProblem {
+	return e.auditWith(w, size, maxTimestamp, beforeSeq, nil, Hash{})
+}
+
+// auditStoredLocked audits the store against the leaves decoded from its own
+// data tiles (for workloads where the harness cannot track pool order): the
+// stored leaves must hash to wantRoot, and every other object must be the exact
+// rendering of those leaves.
+func (e *LogEnv) auditStoredLocked(w *World, size, maxTimestamp, beforeSeq int64, wantRoot Hash) []AuditProblem {
+	var leaves []*RefEntry
+	for n := int64(0); n*256 < size; n++ {
+		wd := int(min(256, size-n*256))
+		key := refTilePath(TileCoord{-1, n, wd})
+		v := w.cur(key)
+		if v == nil {
+			return []AuditProblem{{"missing", key + " missing"}}
+		}
+		es, err := decodeDataTileCached(v.Data, wd)
+		if err != nil {
+			return []AuditProblem{{"data-tile", fmt.Sprintf("%s: %v", key, err)}}
+		}
+		leaves = append(leaves, es...)
+	}
+	return e.auditWith(w, size, maxTimestamp, beforeSeq, leaves, wantRoot)
+}
+
+func (e *LogEnv) auditWith(w *World, size, maxTimestamp, beforeSeq int64, stored []*RefEntry, wantRoot Hash) []AuditProblem {
 	var out []AuditProblem
 	add := func(class, f string, a ...any) {
 		if len(out) < 8 {
 			out = append(out, AuditProblem{class, fmt.Sprintf(f, a...)})
 		}
 	}
-	if int64(len(e.Truth)) < size {
-		add("truth", "tree size %d exceeds the %d leaves known to be committed", size, len(e.Truth))
+	truth, truthLH := e.Truth, e.truthLH
+	if stored != nil {
+		truth = stored
+		truthLH = make([]Hash, len(stored))
+		for i, l := range stored {
+			truthLH[i] = refLeafHash(refMerkleTreeLeaf(l))
+		}
+		if got := refMTH(truthLH); got != wantRoot {
+			add("root", "the %d stored leaves hash to %x, the checkpoint root is %x", len(stored), got[:6], wantRoot[:6])
+		}
+	}
+	if int64(len(truth)) < size {
+		add("truth", "tree size %d exceeds the %d leaves known to be committed", size, len(truth))
 		return out
 	}
 	atomic.AddInt64(&e.auditN, 1)
@@ -650,7 +730,7 @@ func (e *LogEnv) auditLocked(w *World, size, maxTimestamp, beforeSeq int64) []Au
 		}
 		return v.Data, true
 	}
-	mc := newMerkleCache(e.truthLH[:size])
+	mc := newMerkleCache(truthLH[:size])
 	for _, t := range refLayout(size, true) {
 		key := refTilePath(t)
 		b, ok := get(key)
@@ -676,13 +756,13 @@ func (e *LogEnv) auditLocked(w *World, size, maxTimestamp, beforeSeq int64) []Au
 			}
 			var want []byte
 			for i := 0; i < t.W; i++ {
-				want = refTileLeaf(want, e.Truth[start+i])
+				want = refTileLeaf(want, truth[start+i])
 			}
 			if !bytes.Equal(raw, want) {
 				add("data-tile", "%s differs from the reference TileLeaf encoding of leaves %d..%d", key, start, start+t.W)
 			}
 			for i := 0; i < t.W; i++ {
-				le := e.Truth[start+i]
+				le := truth[start+i]
 				if le.LeafIndex != int64(start+i) {
 					add("leaf-index", "leaf %d carries index %d", start+i, le.LeafIndex)
 				}
@@ -704,7 +784,7 @@ func (e *LogEnv) auditLocked(w *World, size, maxTimestamp, beforeSeq int64) []Au
 				add("names-tile", "%s: gunzip: %v", key, err)
 				continue
 			}
-			if msg := checkNamesTile(raw, e.Truth[start:start+t.W]); msg != "" {
+			if msg := checkNamesTile(raw, truth[start:start+t.W]); msg != "" {
 				add("names-tile", "%s: %s", key, msg)
 			}
 		}
@@ -1049,4 +1129,45 @@ func sortedKeys[M ~map[string]V, V any](m M) []string {
 	}
 	sort.Strings(ks)
 	return ks
+}
+
+// CheckAcksFinal decodes the data tiles of the final published tree and checks
+// that every live acknowledgement names an index holding exactly that entry
+// with that timestamp (no truth tracking needed).
+func (e *LogEnv) CheckAcksFinal() {
+	sth := e.PubSTH()
+	if sth == nil {
+		return
+	}
+	tiles := map[int64][]*RefEntry{}
+	e.mu.Lock()
+	acks := append([]*Ack(nil), e.Acks...)
+	e.mu.Unlock()
+	for _, a := range acks {
+		if !a.OK || a.Zombie {
+			continue
+		}
+		if a.Index >= sth.Size {
+			e.violate("ack-lost", "acknowledged index %d is beyond the final published tree (size %d)", a.Index, sth.Size)
+			continue
+		}
+		n := a.Index / 256
+		es, ok := tiles[n]
+		if !ok {
+			w := int(min(256, sth.Size-n*256))
+			if b, found := e.W.Get(refTilePath(TileCoord{-1, n, w})); found {
+				es, _ = decodeDataTileCached(b, w)
+			}
+			tiles[n] = es
+		}
+		if es == nil {
+			e.violate("ack-lost", "data tile %d of the final tree unreadable", n)
+			continue
+		}
+		want := pendingToRef(a.Sub.E, a.Index, a.Timestamp)
+		if !es[a.Index-n*256].Equal(want) {
+			e.violate("ack-lost", "acknowledged submission %d (index %d, source %s) is not the entry stored at that index in the final tree", a.Sub.ID, a.Index, a.Sub.Source)
+		}
+		e.R.Count("acks_checked_final", 1)
+	}
 }
